@@ -893,3 +893,512 @@ Proof.
     destruct (wf_call_sep _ _ _ _ W Ep) as (_ & _ & N). congruence.
   - intros a _ Hs. apply F. intros Ep. exact (Hs a Ep eq_refl).
 Qed.
+
+(* ================= C11_pushed ================= *)
+
+Definition pa_content (p : pa) (h : heap) : amap :=
+  match p with PAMap a => hread a h | _ => [] end.
+
+Lemma gen_ann_content : forall h si p h2 ra tm,
+  (forall a, p = PAMap a -> hget a h <> None) ->
+  gen_ann h (Some si) p = (h2, inr ra) -> si_time si = Some tm ->
+  forall k, lookup k (aread ra h2) =
+    if String.eqb k k_created then Some (rfc3339 tm)
+    else if String.eqb k k_thumb then Some (json_strs (si_chain si))
+    else lookup k (pa_content p h).
+Proof.
+  intros h si p h2 ra tm Hlive H Ht k.
+  destruct p as [| |a].
+  1,2: rewrite gen_ann_fresh in H by (intros a; discriminate); rewrite Ht in H; inversion H; subst;
+       cbn [aread pa_content]; unfold two_ann; cbn [lookup];
+       destruct (String.eqb k k_created) eqn:E1; destruct (String.eqb k k_thumb) eqn:E2; try reflexivity;
+       apply String.eqb_eq in E1; apply String.eqb_eq in E2; subst k; discriminate.
+  rewrite gen_ann_map in H by (apply Hlive; reflexivity). cbv zeta in H. rewrite Ht in H.
+  inversion H. subst. cbn [aread pa_content]. rewrite hread_hupd_eq by (apply Hlive; reflexivity).
+  rewrite !lookup_mset. reflexivity.
+Qed.
+
+Definition pushed_spec (tbl : table) (h : heap) (sp : list stored) (c : call_in)
+           (st' : state) (t : trace) : Prop :=
+  exists d sig si tm pc dg,
+    lookup_tbl (eff_ref c) tbl = Some d
+    /\ ci_sign c = SOk sig (Some si) /\ si_time si = Some tm
+    /\ (ci_push c = PushOK dg /\ t_res t = ROk \/ ci_push c = PushRefDel dg /\ t_res t = RRefDel)
+    /\ t_pushes t = [pc]
+    /\ pc_mt pc = ci_mt c /\ pc_sig pc = sig
+    /\ pc_subject pc = deep h d
+    /\ lookup k_thumb (pc_ann pc) = Some (json_strs (si_chain si))
+    /\ lookup k_created (pc_ann pc) = Some (rfc3339 tm)
+    /\ (forall k, k <> k_thumb -> k <> k_created ->
+                  lookup k (pc_ann pc) = lookup k (plugin_content c h))
+    /\ t_art t = Some (deep h d) /\ t_sigdg t = dg
+    /\ s_stored st' = (sp ++ [mk_stored (ci_mt c) sig (forget (deep h d)) (pc_ann pc)])%list.
+
+Lemma neq_eqb_false : forall a b : string, a <> b -> String.eqb a b = false.
+Proof. intros a b H. destruct (String.eqb a b) eqn:E; [apply String.eqb_eq in E; contradiction | reflexivity]. Qed.
+
+Lemma pushed_core : forall tbl h c d r1 info h2 ra,
+  wf_call h tbl c = true -> ready tbl h c d r1 ->
+  gen_ann h info (ci_pa c) = (h2, inr ra) ->
+  exists si tm, info = Some si /\ si_time si = Some tm
+    /\ deep h2 d = deep h d
+    /\ lookup k_thumb (aread ra h2) = Some (json_strs (si_chain si))
+    /\ lookup k_created (aread ra h2) = Some (rfc3339 tm)
+    /\ (forall k, k <> k_thumb -> k <> k_created ->
+                  lookup k (aread ra h2) = lookup k (plugin_content c h)).
+Proof.
+  intros tbl h c d r1 info h2 ra W R Hg.
+  destruct (gen_ann_ok_inv _ _ _ _ _ Hg) as (si & tm & -> & Ht). exists si, tm.
+  assert (forall a, ci_pa c = PAMap a -> hget a h <> None) as Hlive.
+  { intros a Ea. destruct (wf_call_sep _ _ _ _ W Ea) as (L & _). exact L. }
+  pose proof (gen_ann_content _ _ _ _ _ _ Hlive Hg Ht) as C.
+  destruct (gen_ann_frame _ _ _ _ _ Hg) as (_ & F & _).
+  split; [reflexivity|]. split; [exact Ht|]. split; [|split; [|split]].
+  - apply deep_ext. intros a Ea. apply F. intros Ep.
+    destruct (wf_call_sep _ _ _ _ W Ep) as (_ & N & _). apply N.
+    destruct R as (_ & _ & Hl & _). eapply table_addrs_in; eassumption.
+  - rewrite C. reflexivity.
+  - rewrite C. reflexivity.
+  - intros k N1 N2. rewrite C. rewrite (neq_eqb_false _ _ N2), (neq_eqb_false _ _ N1).
+    unfold plugin_content, pa_content. reflexivity.
+Qed.
+
+Theorem pushed : forall tbl st c st' t,
+  sign_oci false tbl st c = (st', t) -> wf_call (s_heap st) tbl c = true ->
+  t_res t = ROk \/ t_res t = RRefDel ->
+  pushed_spec tbl (s_heap st) (s_stored st) c st' t.
+Proof.
+  intros tbl [h sp] c st' t H W Hr. apply sign_oci_spec in H. cbn [s_heap s_stored] in *.
+  inversion H; subst; cbn in Hr; try (destruct Hr; discriminate).
+  - val_cls. destruct Hr as [-> | ->]; discriminate.
+  - meta_cls; destruct Hr; discriminate.
+  - ann_cls; destruct Hr; discriminate.
+  - match goal with R : ready _ _ _ ?d _, Hg : gen_ann _ _ _ = (_, inr _) |- _ =>
+      destruct (pushed_core _ _ _ _ _ _ _ _ W R Hg) as (si & tm & -> & Ht & Ed & A & B & C);
+      pose proof R as (_ & _ & Hl & _) end.
+    exists d, sig, si, tm, (mk_pc c sig h2 d ra), dg. unfold mk_pc, mk_sto. cbn. rewrite Ed.
+    repeat split; auto.
+  - match goal with R : ready _ _ _ ?d _, Hg : gen_ann _ _ _ = (_, inr _) |- _ =>
+      destruct (pushed_core _ _ _ _ _ _ _ _ W R Hg) as (si & tm & -> & Ht & Ed & A & B & C);
+      pose proof R as (_ & _ & Hl & _) end.
+    exists d, sig, si, tm, (mk_pc c sig h2 d ra), dg. unfold mk_pc, mk_sto. cbn. rewrite Ed.
+    repeat split; auto.
+Qed.
+
+(* ================= C11_repeat ================= *)
+
+Lemma gen_ann_idem : forall h info p h2 ra,
+  (forall a, p = PAMap a -> hget a h <> None) ->
+  gen_ann h info p = (h2, inr ra) -> gen_ann h2 info p = (h2, inr ra).
+Proof.
+  intros h info p h2 ra Hlive H.
+  destruct (gen_ann_ok_inv _ _ _ _ _ H) as (si & tm & -> & Ht).
+  destruct p as [| |a].
+  1,2: rewrite gen_ann_fresh in H |- * by (intros a; discriminate); rewrite Ht in H |- *;
+       inversion H; subst; reflexivity.
+  assert (hget a h <> None) as La by (apply Hlive; reflexivity).
+  rewrite gen_ann_map in H by exact La. cbv zeta in H. rewrite Ht in H. inversion H. subst h2 ra. clear H.
+  set (m2 := mset k_created (rfc3339 tm) (mset k_thumb (json_strs (si_chain si)) (hread a h))).
+  assert (hget a (hupd a m2 h) = Some m2) as G by (apply hget_hupd_eq; exact La).
+  rewrite gen_ann_map by congruence. cbv zeta. rewrite Ht.
+  assert (hread a (hupd a m2 h) = m2) as -> by (unfold hread; rewrite G; reflexivity).
+  assert (mset k_thumb (json_strs (si_chain si)) m2 = m2) as ->.
+  { apply mset_idem. unfold m2. rewrite lookup_mset, k_thumb_neq_created. apply lookup_mset_eq. }
+  assert (mset k_created (rfc3339 tm) m2 = m2) as ->.
+  { apply mset_idem. unfold m2. apply lookup_mset_eq. }
+  rewrite (hupd_same _ _ _ G). reflexivity.
+Qed.
+
+Lemma repeat_step : forall tbl h sp c st1 t1,
+  wf_call h tbl c = true ->
+  sign_oci false tbl (mk_state h sp) c = (st1, t1) -> t_res t1 = ROk ->
+  forall sp', exists x,
+    sign_oci false tbl (mk_state (s_heap st1) sp') c = (mk_state (s_heap st1) (sp' ++ [x])%list, t1).
+Proof.
+  intros tbl h sp c st1 t1 W H Hr sp'. apply sign_oci_spec in H.
+  inversion H; subst; cbn in Hr; try discriminate.
+  - val_cls. rewrite Hr in Hvc. discriminate.
+  - meta_cls; discriminate.
+  - ann_cls; discriminate.
+  - (* the successful call *)
+    match goal with R : ready _ _ _ _ _ |- _ => pose proof R as (Hv & Hn & Hl & Hp & Ha) end.
+    match goal with Hg : gen_ann _ _ _ = (_, inr _) |- _ => rename Hg into Hg0 end.
+    assert (forall a, ci_pa c = PAMap a -> hget a h <> None) as Hlive.
+    { intros a Ea. destruct (wf_call_sep _ _ _ _ W Ea) as (L & _). exact L. }
+    destruct (gen_ann_frame _ _ _ _ _ Hg0) as (_ & F & _).
+    pose proof (gen_ann_idem _ _ _ _ _ Hlive Hg0) as Hg1.
+    cbn [s_heap].
+    (* reads of the first part are the same in the new heap *)
+    assert (forall b, In b (table_addrs tbl) -> hget b h2 = hget b h) as Ft.
+    { intros b Hb. apply F. intros Ep. destruct (wf_call_sep _ _ _ _ W Ep) as (_ & N & _). contradiction. }
+    assert (aread (d_ann d) h2 = aread (d_ann d) h) as Erc.
+    { destruct (d_ann d) as [|b|m] eqn:Ed; cbn; try reflexivity.
+      unfold hread. rewrite Ft; [reflexivity|]. eapply table_addrs_in; eassumption. }
+    assert (meta_es c h2 = meta_es c h) as Ees.
+    { unfold meta_es. destruct (ci_meta c) as [b|] eqn:Em; [|reflexivity].
+      unfold hread. rewrite F; [reflexivity|]. intros Ep.
+      destruct (wf_call_sep _ _ _ _ W Ep) as (_ & _ & N). congruence. }
+    assert (add_meta false h2 (d_ann d) (meta_es c h2) = (h2, r1, None)) as Ha2.
+    { rewrite Ees. rewrite add_meta_false in Ha |- *. rewrite Erc.
+      destruct (meta_es c h); inversion Ha; reflexivity. }
+    assert (mk_sc c h2 d r1 = mk_sc c h d r1) as Esc.
+    { unfold mk_sc. f_equal. apply deep_ext. cbn [d_ann]. intros b Eb.
+      match goal with R : ready _ _ _ _ _ |- _ => destruct (ready_signed _ _ _ _ _ R) as (_ & _ & C1 & C2) end.
+      destruct (meta_of c h) eqn:Em.
+      - rewrite (C1 eq_refl) in Eb. apply Ft. eapply table_addrs_in; eassumption.
+      - destruct C2 as [m0 Em0]; [discriminate|]. congruence. }
+    eexists. unfold sign_oci. cbn [s_heap s_stored].
+    rewrite Hv, Hn, Hl, Hp. fold (meta_es c h2). rewrite Ha2.
+    match goal with Es : ci_sign c = SOk _ _ |- _ => rewrite Es end.
+    rewrite Hg1.
+    match goal with Eq : ci_push c = PushOK _ |- _ => rewrite Eq end.
+    fold (mk_sc c h2 d r1). rewrite Esc. reflexivity.
+Qed.
+
+Lemma repeat_tail : forall tbl probes c h1 t1,
+  (forall sp', exists x, sign_oci false tbl (mk_state h1 sp') c = (mk_state h1 (sp' ++ [x])%list, t1)) ->
+  forall n sp',
+  Forall (fun o => co_trace o = t1 /\ co_heap o = h1)
+         (run_calls false tbl probes (mk_state h1 sp') (repeat c n)).
+Proof.
+  intros tbl probes c h1 t1 Hs. induction n as [|n IH]; intros sp'; cbn [repeat run_calls]; [constructor|].
+  destruct (Hs sp') as [x Hx]. rewrite Hx. constructor; [cbn; auto|]. apply IH.
+Qed.
+
+Theorem repeat_ok : forall tbl probes st c n,
+  wf_call (s_heap st) tbl c = true ->
+  t_res (snd (sign_oci false tbl st c)) = ROk ->
+  Forall (fun o => co_trace o = snd (sign_oci false tbl st c)
+                   /\ co_heap o = s_heap (fst (sign_oci false tbl st c)))
+         (run_calls false tbl probes st (repeat c n)).
+Proof.
+  intros tbl probes [h sp] c n W Hr.
+  destruct (sign_oci false tbl (mk_state h sp) c) as [st1 t1] eqn:E. cbn [fst snd] in *.
+  destruct n as [|n]; cbn [repeat run_calls]; [constructor|].
+  rewrite E. constructor; [cbn; auto|].
+  destruct st1 as [h1 sp1]. cbn [s_heap].
+  apply repeat_tail. intros sp'.
+  exact (repeat_step _ _ _ _ _ _ W E Hr sp').
+Qed.
+
+(* ================= the in-place variant (before fix 14156eb) ================= *)
+
+Definition rf_tbl : table :=
+  [("v1", mk_desc "application/vnd.oci.image.manifest.v1+json" "sha256:aa" 7 "" (AShared 0))].
+Definition rf_heap : heap := [(0%N, [("org.example.extra", "1")]); (1%N, [("k", "v")])].
+Definition rf_call : call_in :=
+  mk_call_in false false "v1" None false mt_jws 0 "" (Some 1%N) None None
+             (SOk "sig" (Some (mk_sinfo ["ab"] (Some 0%Z)))) PANone (PushOK "sha256:m").
+
+Lemma inplace_refuted :
+  exists tbl st c,
+    let r1 := sign_oci true tbl st c in
+    let r2 := sign_oci true tbl (fst r1) c in
+    t_res (snd r1) = ROk
+    /\ (exists a, ci_pa c <> PAMap a /\ hget a (s_heap (fst r1)) <> hget a (s_heap st))
+    /\ t_res (snd r2) = EMetaPresent.
+Proof.
+  exists rf_tbl, (mk_state rf_heap []), rf_call. cbv zeta. split; [reflexivity|]. split.
+  - exists 0%N. split; [discriminate|]. vm_compute. discriminate.
+  - reflexivity.
+Qed.
+
+(* the same history under the code now: both calls succeed, the heap is untouched *)
+Lemma fixed_witness :
+  let r1 := sign_oci false rf_tbl (mk_state rf_heap []) rf_call in
+  let r2 := sign_oci false rf_tbl (fst r1) rf_call in
+  t_res (snd r1) = ROk /\ t_res (snd r2) = ROk /\ s_heap (fst r2) = rf_heap /\ snd r2 = snd r1.
+Proof. vm_compute. repeat split. Qed.
+
+(* ================= the model meets the oracle ================= *)
+
+Lemma list_eqb_refl : forall {A} (eqb : A -> A -> bool) (l : list A),
+  (forall x, In x l -> eqb x x = true) -> list_eqb eqb l l = true.
+Proof.
+  intros A eqb l. induction l as [|x l IH]; intros H; cbn; [reflexivity|].
+  rewrite H by (left; reflexivity). apply IH. intros y Hy. apply H. right. exact Hy.
+Qed.
+
+Lemma mref_eqb_refl : forall r, mref_eqb r r = true.
+Proof. intros [|a|]; cbn; [reflexivity | apply N.eqb_refl | reflexivity]. Qed.
+
+Lemma ddesc_eqb_refl : forall d, ddesc_eqb d d = true.
+Proof.
+  intros d. unfold ddesc_eqb. rewrite !str_eqb_refl, Z.eqb_refl, mref_eqb_refl, amap_eqv_refl. reflexivity.
+Qed.
+
+Lemma stored_eqb_refl : forall s, stored_eqb s s = true.
+Proof.
+  intros s. unfold stored_eqb. rewrite !str_eqb_refl, ddesc_eqb_refl, amap_eqv_refl. reflexivity.
+Qed.
+
+Lemma stored_list_refl : forall l, list_eqb stored_eqb l l = true.
+Proof. intros l. apply list_eqb_refl. intros x _. apply stored_eqb_refl. Qed.
+
+Lemma res_eqb_refl : forall r, res_eqb r r = true.
+Proof. intros []; reflexivity. Qed.
+
+Lemma view_eqb_refl : forall v, view_eqb v v = true.
+Proof.
+  intros v. apply list_eqb_refl. intros [r o] _. cbn. rewrite str_eqb_refl.
+  destruct o as [d|]; cbn; [apply ddesc_eqb_refl | reflexivity].
+Qed.
+
+Lemma heap_same_refl : forall ex h, heap_same_except ex h h = true.
+Proof.
+  intros ex h. apply list_eqb_refl. intros [a m] _. cbn. rewrite N.eqb_refl, amap_eqv_refl, orb_true_r. reflexivity.
+Qed.
+
+Lemma heap_same_hupd : forall a m h, heap_same_except (Some a) h (hupd a m h) = true.
+Proof.
+  intros a m h. induction h as [|[a' m'] h IH]; [reflexivity|].
+  cbn [hupd]. destruct (a =? a')%N eqn:E.
+  - cbn. rewrite N.eqb_refl, E. cbn. apply (heap_same_refl (Some a) h).
+  - cbn. rewrite N.eqb_refl, amap_eqv_refl, orb_true_r. cbn. exact IH.
+Qed.
+
+Lemma gen_ann_shape : forall h info p h2 x,
+  gen_ann h info p = (h2, x) -> h2 = h \/ exists a m, p = PAMap a /\ h2 = hupd a m h.
+Proof.
+  intros h [si|] p h2 x H; [|cbn in H; inversion H; auto].
+  destruct p as [| |a].
+  1,2: rewrite gen_ann_fresh in H by (intros a; discriminate); destruct (si_time si); inversion H; auto.
+  right. exists a. unfold gen_ann in H. cbn in H. destruct (si_time si); inversion H.
+  - rewrite hupd_hupd. eexists. split; reflexivity.
+  - eexists. split; reflexivity.
+Qed.
+
+Lemma gen_ann_heap_same : forall h info c h2 x,
+  gen_ann h info (ci_pa c) = (h2, x) ->
+  heap_same_except (match ci_pa c with PAMap a => Some a | _ => None end) h h2 = true.
+Proof.
+  intros h info c h2 x H. destruct (gen_ann_shape _ _ _ _ _ H) as [-> | (a & m & Ep & ->)].
+  - apply heap_same_refl.
+  - rewrite Ep. apply heap_same_hupd.
+Qed.
+
+Lemma gen_ann_err_inv : forall h info p h2 e,
+  gen_ann h info p = (h2, inl e) ->
+  (info = None /\ e = EAnnInfoNil /\ h2 = h)
+  \/ (exists si, info = Some si /\ si_time si = None /\ e = EAnnTime).
+Proof.
+  intros h [si|] p h2 e H; [|cbn in H; inversion H; auto].
+  right. exists si. unfold gen_ann in H.
+  destruct (awrite k_thumb (json_strs (si_chain si)) h match p with PAMap a => AShared a | _ => AFresh [] end) as [h1 r1].
+  destruct (si_time si) eqn:Et; [|inversion H; auto].
+  destruct (awrite k_created (rfc3339 z) h1 r1). inversion H.
+Qed.
+
+Lemma existsb_res_in : forall e l, In e l -> existsb (res_eqb e) l = true.
+Proof.
+  intros e l H. apply existsb_exists. exists e. split; [exact H | apply res_eqb_refl].
+Qed.
+
+Lemma args_ok : forall c, validate c = None -> ci_repo_nil c = false -> args_bad c = false.
+Proof.
+  intros c Hv Hn. destruct (validate_none _ Hv) as (A & B & C & D).
+  unfold args_bad. rewrite A, B, C, D, Hn. reflexivity.
+Qed.
+
+Lemma str_list_refl : forall l, list_eqb String.eqb l l = true.
+Proof. intros l. apply list_eqb_refl. intros x _. apply str_eqb_refl. Qed.
+
+Lemma existsb_false_of : forall {A} (f : A -> bool) l, (forall x, In x l -> f x = false) -> existsb f l = false.
+Proof.
+  intros A f l. induction l as [|x l IH]; intros H; cbn; [reflexivity|].
+  rewrite H by (left; reflexivity). apply IH. intros y Hy. apply H. right. exact Hy.
+Qed.
+
+(* the refusal part of the oracle on an unchanged state *)
+Lemma refused_ok : forall (sp : list stored) (h : heap) (e : res) (classes : list res),
+  In e classes ->
+  existsb (res_eqb e) classes
+  && (list_eqb stored_eqb sp sp && is_nil (@nil push_call) && is_none (@None ddesc) && String.eqb "" "")
+  && is_nil (@nil sign_call) && heap_same_except None h h = true.
+Proof.
+  intros sp h e classes H. rewrite existsb_res_in by exact H.
+  rewrite stored_list_refl, heap_same_refl. reflexivity.
+Qed.
+
+Lemma is_resolved_deep : forall d h, is_resolved d (aread (d_ann d) h) (deep h d) = true.
+Proof.
+  intros d h. unfold is_resolved, deep. cbn.
+  rewrite !str_eqb_refl, Z.eqb_refl, mref_eqb_refl, amap_eqv_refl. reflexivity.
+Qed.
+
+Lemma ann_ok_of : forall pc0 si tm m,
+  lookup k_thumb m = Some (json_strs (si_chain si)) ->
+  lookup k_created m = Some (rfc3339 tm) ->
+  (forall k, k <> k_thumb -> k <> k_created -> lookup k m = lookup k pc0) ->
+  ann_ok pc0 si tm m = true.
+Proof.
+  intros pc0 si tm m A B C. unfold ann_ok. rewrite A, B. rewrite !opt_str_eqb_refl. cbn [andb].
+  apply forallb_forall. intros [k v] _. cbn [fst].
+  destruct (String.eqb k k_thumb) eqn:E1; [reflexivity|].
+  destruct (String.eqb k k_created) eqn:E2; [reflexivity|]. cbn.
+  rewrite C; [apply opt_str_eqb_refl | |]; intros ->; rewrite str_eqb_refl in *; discriminate.
+Qed.
+
+(* the metadata part: what the signer received *)
+Lemma signed_ok : forall tbl h c d r1, ready tbl h c d r1 ->
+  let sc := mk_sc c h d r1 in
+  String.eqb (dd_mt (sc_desc sc)) (d_mt d) && String.eqb (dd_dg (sc_desc sc)) (d_dg d)
+  && (dd_sz (sc_desc sc) =? d_sz d)%Z && String.eqb (dd_rest (sc_desc sc)) (d_rest d)
+  && amap_eqv (dd_ann (sc_desc sc)) (aread (d_ann d) h ++ meta_of c h)%list
+  && String.eqb (sc_mt sc) (ci_mt c) && (sc_expiry sc =? ci_expiry c)%Z
+  && String.eqb (sc_agent sc) (ci_agent c) && mref_eqb (sc_pcfg sc) (opt_mref (ci_pcfg c)) = true.
+Proof.
+  intros tbl h c d r1 R. cbn. destruct (ready_signed _ _ _ _ _ R) as (A & _).
+  rewrite !str_eqb_refl, !Z.eqb_refl, mref_eqb_refl.
+  rewrite amap_eqv_ext; [reflexivity|]. intros k. rewrite A, lookup_app. reflexivity.
+Qed.
+
+Lemma ready_not_bad : forall tbl h c d r1, ready tbl h c d r1 ->
+  existsb (fun kv => reserved (fst kv)) (meta_of c h) = false
+  /\ existsb (fun kv : string * string => is_some (lookup (fst kv) (aread (d_ann d) h))) (meta_of c h) = false.
+Proof.
+  intros tbl h c d r1 R. destruct (ready_signed _ _ _ _ _ R) as (_ & B & _).
+  split; apply existsb_false_of; intros [k v] Hin;
+    (assert (In k (map fst (meta_of c h))) as Hk by (apply in_map_iff; exists (k, v); auto));
+    destruct (B _ Hk) as [B1 B2]; cbn [fst]; [exact B1 | rewrite B2; reflexivity].
+Qed.
+
+Lemma wf_meta_of : forall c h, wf_heap h = true -> nodup_str (map fst (meta_of c h)) = true.
+Proof. intros c h W. unfold meta_of. destruct (ci_meta c); [apply wf_heap_hread; exact W | reflexivity]. Qed.
+
+Lemma wf_meta_es : forall c h, wf_heap h = true -> nodup_str (map fst (meta_es c h)) = true.
+Proof.
+  intros c h W. unfold meta_es. destruct (ci_meta c); [|reflexivity].
+  apply nodup_entries. apply wf_heap_hread. exact W.
+Qed.
+
+Lemma existsb_key : forall (f : string -> bool) (m : amap) k,
+  In k (map fst m) -> f k = true -> existsb (fun kv => f (fst kv)) m = true.
+Proof.
+  intros f m k Hin Hf. apply in_map_iff in Hin. destruct Hin as [[k0 v0] [E Hin]]. cbn in E. subst k0.
+  apply existsb_exists. exists (k, v0). split; [exact Hin | exact Hf].
+Qed.
+
+Lemma meta_bad : forall h c d r e,
+  wf_heap h = true ->
+  add_meta false h (d_ann d) (meta_es c h) = (h, r, Some e) ->
+  let bad_res := existsb (fun kv => reserved (fst kv)) (meta_of c h) in
+  let bad_pre := existsb (fun kv : string * string => is_some (lookup (fst kv) (aread (d_ann d) h))) (meta_of c h) in
+  bad_res || bad_pre = true
+  /\ In e ((if bad_res then [EMetaReserved] else []) ++ (if bad_pre then [EMetaPresent] else []))%list.
+Proof.
+  intros h c d r e W Ha. cbv zeta.
+  rewrite add_meta_false in Ha. destruct (meta_es c h) as [|e0 es0] eqn:Ees; [inversion Ha|].
+  rewrite <- Ees in Ha. inversion Ha as [[E1 E2]]. clear Ha E1.
+  destruct (add_pure_class _ _ _ E2) as [-> | ->].
+  - destruct (add_pure_reserved_inv _ _ E2) as (k & Hk & Hr). apply keys_meta_es in Hk.
+    rewrite (existsb_key reserved _ _ Hk Hr). split; [reflexivity|]. left. reflexivity.
+  - destruct (add_pure_present_inv _ _ (wf_meta_es c h W) E2) as (k & Hk & Hp). apply keys_meta_es in Hk.
+    assert (is_some (lookup k (aread (d_ann d) h)) = true) as Hs
+      by (destruct (lookup k (aread (d_ann d) h)); [reflexivity | congruence]).
+    rewrite (existsb_key (fun k => is_some (lookup k (aread (d_ann d) h))) _ _ Hk Hs).
+    split; [apply orb_true_r|]. apply in_or_app. right. left. reflexivity.
+Qed.
+
+Ltac spec_open :=
+  unfold spec_call, view_ok;
+  cbn [co_trace co_heap co_view co_stored t_res t_art t_sigdg t_resolves t_signs t_pushes s_heap s_stored];
+  cbv beta zeta.
+
+Lemma spec_call_model : forall tbl probes h sp c st' t,
+  wf_heap h = true -> wf_call h tbl c = true ->
+  sign_oci false tbl (mk_state h sp) c = (st', t) ->
+  spec_call tbl probes h sp c (mk_co t (s_heap st') (view tbl probes (s_heap st')) (s_stored st')) = true.
+Proof.
+  intros tbl probes h sp c st' t W Wc H. apply sign_oci_spec in H.
+  inversion H; subst; spec_open; rewrite ?view_eqb_refl.
+  - (* argument errors *)
+    match goal with Hv : validate c = Some _ |- _ => destruct (validate_some_args_bad _ _ Hv) as [Ab Ain] end.
+    rewrite Ab, heap_same_refl, (refused_ok sp h _ _ Ain). reflexivity.
+  - (* repo nil *)
+    assert (args_bad c = true) as Ab.
+    { unfold args_bad. match goal with Hn : ci_repo_nil c = true |- _ => rewrite Hn end. apply orb_true_r. }
+    rewrite Ab, heap_same_refl.
+    rewrite (refused_ok sp h ERepoNil arg_errors) by (cbn; auto 10). reflexivity.
+  - (* unresolved *)
+    rewrite args_ok by assumption. rewrite heap_same_refl, str_list_refl.
+    match goal with Hl : lookup_tbl _ _ = None |- _ => rewrite Hl end.
+    rewrite (refused_ok sp h EResolve [EResolve]) by (left; reflexivity). reflexivity.
+  - (* digest pin *)
+    rewrite args_ok by assumption. rewrite heap_same_refl, str_list_refl.
+    match goal with Hl : lookup_tbl _ _ = Some _ |- _ => rewrite Hl end.
+    match goal with Hp : negb _ && _ = true |- _ => rewrite Hp end.
+    rewrite (refused_ok sp h EDigestMismatch [EDigestMismatch]) by (left; reflexivity). reflexivity.
+  - (* metadata refused *)
+    rewrite args_ok by assumption. rewrite heap_same_refl, str_list_refl.
+    match goal with Hl : lookup_tbl _ _ = Some _ |- _ => rewrite Hl end.
+    match goal with Hp : negb _ && _ = false |- _ => rewrite Hp end.
+    fold (meta_of c h).
+    match goal with Ha : add_meta false _ _ _ = (_, _, Some _) |- _ =>
+      destruct (meta_bad _ _ _ _ _ W Ha) as [Hb Hin] end.
+    rewrite Hb. rewrite (refused_ok sp h _ _ Hin). reflexivity.
+  - (* signer error *)
+    match goal with R : ready _ _ _ _ _ |- _ =>
+      pose proof R as (Hv & Hn & Hl & Hp & _); destruct (ready_not_bad _ _ _ _ _ R) as [B1 B2];
+      pose proof (signed_ok _ _ _ _ _ R) as S end.
+    rewrite args_ok by assumption. rewrite heap_same_refl, str_list_refl, Hl, Hp.
+    fold (meta_of c h). rewrite B1, B2. cbn [orb]. cbv zeta in S. rewrite S.
+    match goal with Es : ci_sign c = SErr |- _ => rewrite Es end.
+    rewrite stored_list_refl. reflexivity.
+  - (* annotation errors *)
+    match goal with R : ready _ _ _ _ _ |- _ =>
+      pose proof R as (Hv & Hn & Hl & Hp & _); destruct (ready_not_bad _ _ _ _ _ R) as [B1 B2];
+      pose proof (signed_ok _ _ _ _ _ R) as S end.
+    match goal with Hg : gen_ann _ _ _ = _ |- _ => pose proof (gen_ann_heap_same _ _ _ _ _ Hg) as Hs;
+      destruct (gen_ann_err_inv _ _ _ _ _ Hg) as [(-> & -> & ->) | (si & -> & Et & ->)] end.
+    + rewrite args_ok by assumption. rewrite heap_same_refl, str_list_refl, Hl, Hp.
+      fold (meta_of c h). rewrite B1, B2. cbn [orb]. cbv zeta in S. rewrite S.
+      match goal with Es : ci_sign c = SOk _ _ |- _ => rewrite Es end.
+      rewrite stored_list_refl. reflexivity.
+    + rewrite args_ok by assumption. rewrite Hs, str_list_refl, Hl, Hp.
+      fold (meta_of c h). rewrite B1, B2. cbn [orb]. cbv zeta in S. rewrite S.
+      match goal with Es : ci_sign c = SOk _ _ |- _ => rewrite Es end.
+      rewrite Et. rewrite stored_list_refl. reflexivity.
+  - (* push error *)
+    match goal with R : ready _ _ _ _ _ |- _ =>
+      pose proof R as (Hv & Hn & Hl & Hp & _); destruct (ready_not_bad _ _ _ _ _ R) as [B1 B2];
+      pose proof (signed_ok _ _ _ _ _ R) as S;
+      match goal with Hg : gen_ann _ _ _ = (_, inr _) |- _ =>
+        pose proof (gen_ann_heap_same _ _ _ _ _ Hg) as Hs;
+        destruct (pushed_core _ _ _ _ _ _ _ _ Wc R Hg) as (si & tm & -> & Et & Ed & A1 & A2 & A3) end end.
+    rewrite args_ok by assumption. rewrite Hs, str_list_refl, Hl, Hp.
+    fold (meta_of c h). rewrite B1, B2. cbn [orb]. cbv zeta in S. rewrite S.
+    match goal with Es : ci_sign c = SOk _ _ |- _ => rewrite Es end. rewrite Et.
+    unfold mk_pc. cbn [pc_mt pc_sig pc_subject pc_ann]. rewrite Ed.
+    rewrite !str_eqb_refl, is_resolved_deep, (ann_ok_of _ _ _ _ A1 A2 A3).
+    match goal with Eq : ci_push c = PushErr |- _ => rewrite Eq end.
+    rewrite stored_list_refl. reflexivity.
+  - (* pushed *)
+    match goal with R : ready _ _ _ _ _ |- _ =>
+      pose proof R as (Hv & Hn & Hl & Hp & _); destruct (ready_not_bad _ _ _ _ _ R) as [B1 B2];
+      pose proof (signed_ok _ _ _ _ _ R) as S;
+      match goal with Hg : gen_ann _ _ _ = (_, inr _) |- _ =>
+        pose proof (gen_ann_heap_same _ _ _ _ _ Hg) as Hs;
+        destruct (pushed_core _ _ _ _ _ _ _ _ Wc R Hg) as (si & tm & -> & Et & Ed & A1 & A2 & A3) end end.
+    rewrite args_ok by assumption. rewrite Hs, str_list_refl, Hl, Hp.
+    fold (meta_of c h). rewrite B1, B2. cbn [orb]. cbv zeta in S. rewrite S.
+    match goal with Es : ci_sign c = SOk _ _ |- _ => rewrite Es end. rewrite Et.
+    unfold mk_pc, mk_sto. cbn [pc_mt pc_sig pc_subject pc_ann]. rewrite Ed.
+    rewrite !str_eqb_refl, !is_resolved_deep, (ann_ok_of _ _ _ _ A1 A2 A3).
+    match goal with Eq : ci_push c = PushOK _ |- _ => rewrite Eq end.
+    rewrite stored_list_refl, str_eqb_refl. reflexivity.
+  - (* pushed, referrers index deletion failed *)
+    match goal with R : ready _ _ _ _ _ |- _ =>
+      pose proof R as (Hv & Hn & Hl & Hp & _); destruct (ready_not_bad _ _ _ _ _ R) as [B1 B2];
+      pose proof (signed_ok _ _ _ _ _ R) as S;
+      match goal with Hg : gen_ann _ _ _ = (_, inr _) |- _ =>
+        pose proof (gen_ann_heap_same _ _ _ _ _ Hg) as Hs;
+        destruct (pushed_core _ _ _ _ _ _ _ _ Wc R Hg) as (si & tm & -> & Et & Ed & A1 & A2 & A3) end end.
+    rewrite args_ok by assumption. rewrite Hs, str_list_refl, Hl, Hp.
+    fold (meta_of c h). rewrite B1, B2. cbn [orb]. cbv zeta in S. rewrite S.
+    match goal with Es : ci_sign c = SOk _ _ |- _ => rewrite Es end. rewrite Et.
+    unfold mk_pc, mk_sto. cbn [pc_mt pc_sig pc_subject pc_ann]. rewrite Ed.
+    rewrite !str_eqb_refl, !is_resolved_deep, (ann_ok_of _ _ _ _ A1 A2 A3).
+    match goal with Eq : ci_push c = PushRefDel _ |- _ => rewrite Eq end.
+    rewrite stored_list_refl, str_eqb_refl. reflexivity.
+Qed.
